@@ -104,13 +104,12 @@ ErrWhy(e) == IF e.exit = 0 THEN "cli-exit-zero-on-error"
              ELSE IF e.nS # 0 THEN "cli-answer-on-error" ELSE ""
 
 First(a, b2) == IF a # "" THEN a ELSE b2
-KFUnique == Case.kind = "bf" /\ Parse(Case.tokens, Case.names).ok /\ UniqNonPos(Parse(Case.tokens, Case.names).f, 1, 5)
 Why == CASE Ev.op = "skip"    -> ""
          [] Ev.op = "crash"   -> "crash"
          [] Ev.op = "timeout" -> "timeout"
          [] Ev.op # "run"     -> "unknown-event"
          [] Case.kind = "bad" -> ErrWhy(Ev)
-         [] Case.kind = "bf"  -> (LET w == BfWhy(Ev) IN IF w # "" /\ KFUnique THEN "kf:bf-unique-nonpositive:" \o w ELSE w)
+         [] Case.kind = "bf"  -> BfWhy(Ev)
          [] Case.mode = "count" -> CountWhy(Ev)
          [] Case.mode = "mus"   -> MusWhy(Ev)
          [] Case.mode = "cert"  -> First(SolveWhy(Ev), CertWhy(Ev))
